@@ -84,9 +84,18 @@ InterpreterEnv::InterpreterEnv(std::vector<valtype>& stack_in, const CScript& sc
 , curr_op_seq(0)
 , done(pc == pend)
 , tce(nullptr)
+, has_op_success(false)
 {
     sigversion = sigversion_in;
     serror = error_in;
+    if (sigversion == SigVersion::TAPSCRIPT) {
+        // BIP342 scans the whole script for OP_SUCCESSx before executing any of it
+        opcodetype opcode;
+        CScript::const_iterator it = script.begin();
+        while (it < script.end() && script.GetOp(it, opcode)) {
+            if (IsOpSuccess(opcode)) { has_op_success = true; break; }
+        }
+    }
 
     operational = true;
     set_error(serror, SCRIPT_ERR_UNKNOWN_ERROR);
@@ -140,6 +149,9 @@ bool StepScript(InterpreterEnv& env)
     auto& pc = env.pc;
 
     if (pc < pend) {
+        if (env.has_op_success && (env.flags & SCRIPT_VERIFY_DISCOURAGE_OP_SUCCESS))
+            return set_error(env.serror, SCRIPT_ERR_DISCOURAGE_OP_SUCCESS);
+
         // Store history entry
         env.stack_history.push_back(env.stack);
         env.altstack_history.push_back(env.altstack);
@@ -150,7 +162,17 @@ bool StepScript(InterpreterEnv& env)
         env.execdata_history.push_back(env.execdata);
         env.opcode_pos_history.push_back(env.opcode_pos);
 
-        if (!StepScript(env, pc)) {
+        bool stepped;
+        if (env.has_op_success) {
+            // the script succeeds unconditionally (BIP342): its operations are walked over, not executed
+            opcodetype opcode;
+            valtype vchPushValue;
+            if (pc == env.script.begin()) btc_logf("note: the script contains an OP_SUCCESSx opcode: it succeeds unconditionally and its operations are not executed\n");
+            stepped = env.script.GetOp(pc, opcode, vchPushValue) || set_error(env.serror, SCRIPT_ERR_BAD_OPCODE);
+        } else {
+            stepped = StepScript(env, pc);
+        }
+        if (!stepped) {
             // undo above pushes
             env.stack_history.pop_back();
             env.altstack_history.pop_back();
